@@ -269,6 +269,15 @@ pub fn gen(seed: u64, thorough: bool, only: Option<u64>, out: &mut Out) {
         h.push(Op::Eval(vec![]));
         h.push(Op::Punct(vec![*x, 0]));
         h.push(Op::Eval(vec![1, 2]));
+        // lengths whose bit count wraps in a byte or a 16-bit word
+        for l in [32usize, 33, 65, 97, 256, 257] {
+          if (j / 31 + l) % 3 == 0 {
+            // (made of a byte that is punctured last, so that a too-long input is not refused for lack of a cover)
+            let y = order[255];
+            h.push(Op::Eval(vec![y; l]));
+            h.push(Op::Punct(vec![y; l]));
+          }
+        }
       }
     }
     hists.push(h);
